@@ -188,6 +188,25 @@ def run_cseg(R, quick):
         blk = [rng.choice([1, 2, 3, 8]) for _ in range(3)]
         items.append(("random", b, C, shape, blk, rng.choice(["uint32", "uint64"]), None, False))
 
+    # 32-bit blocks whose index words are close to 2^32 (a signed intermediate would read them as small negative
+    # numbers, which index the table from its end) or just outside the table; hand-built one-block files
+    for dt in ("uint32", "uint64"):
+        wide = dt == "uint64"
+        labels = [111, 222, 333] if not wide else [2 ** 40 + 1, 222, 2 ** 63 + 5]
+        lut = b"".join(v.to_bytes(8 if wide else 4, "little") for v in labels)
+        for bits, idx_pairs in ((32, [(0xFFFFFFFF, 0xFFFFFFFE), (0xFFFFFFFD, 0), (0x80000000, 1), (0x7FFFFFFF, 2),
+                                      (3, 0), (2, 0xFFFFFFFF), (2, 1), (0, 2), (2 ** 32 - 3, 2 ** 32 - 1)]),
+                                (16, [(0xFFFF, 0xFFFE), (0xFFFD, 0), (0x8000, 1), (3, 0), (2, 1)]),
+                                (8, [(0xFF, 0xFE), (0xFD, 0), (0x80, 1), (3, 0), (2, 1)])):
+            for i0, i1 in idx_pairs:
+                if bits == 32:
+                    vals = struct.pack("<II", i0, i1)
+                else:
+                    vals = struct.pack("<I", i0 | (i1 << bits))
+                nvw = len(vals) // 4
+                b = struct.pack("<III", 1, (bits << 24) | (2 + nvw), 2) + vals + lut
+                items.append(("wide-index", b, 1, [2, 1, 1], [2, 1, 1], dt, None, True))
+
     if not quick:
         # exhaustive sweep: every single-byte substitution on three small valid files
         small = [("uint32", 2, [2, 1, 1], [1, 1, 1], [5, 6, 5, 7]),
